@@ -21,6 +21,8 @@ var vShapes = [][][][]int{
 	{{{1}, {2, 3}}, {{1}, {2}}, {{2, 3}}}, // inlined pair at the leaf, shared
 	{{{1}, {3}}, {{1}, {2}, {3}}},         // direct call first, then the same call through a frame that may be trimmed
 	{{{1}, {2}, {3}}, {{1}, {3}}},         // the same, other sample order
+	{{{1}, {2}, {}}, {{1}}},               // unsymbolized leaf address (a location without lines) under symbolized callers
+	{{{}, {2}}, {{2}}},                    // unsymbolized root address
 }
 
 type vProf struct {
